@@ -327,46 +327,37 @@ class ASet:
 
 
 def complement_rule(ctx):
+    """R4.2: the (known, unknown) pair is a partition of range(Ndof): known = the set of the Dirichlet dofs (each once, however
+    often and in whatever order they were entered), unknown = every other dof.  Bc_dofs_known_unknown is interpreted on
+    concrete dof lists (the abstract mask domain used before recognised one spelling only - np.where(mask)[0] - and fired on
+    np.flatnonzero, refactored/C04-R3)."""
+    from ..xarray import XArray
+
     repo = ctx.repo
     r = ctx.rule("R4.2", "known/unknown dofs are a boolean mask and its complement (a partition by construction; duplicates collapse)", min_instances=1)
     f = repo.method(SIMU, "Bc_dofs_known_unknown")
-    r.instance(fn=f.qualname)
-    from .. import xeval
-
-    I = Interp(repo, extra_builtins={"Tic": lambda *a, **k: Sink()})
-
-    def hook(fn, args, kwargs):
-        if isinstance(fn, xeval._NpAttr):
-            if fn.path == "asarray" and args and isinstance(args[0], ASet):
-                return args[0]
-            if fn.path == "ones" and kwargs.get("dtype") is bool:
-                return AMask("ALL", False)
-            if fn.path == "zeros" and kwargs.get("dtype") is bool:
-                return AMask("NONE", False)
-            if fn.path == "where" and len(args) == 1 and isinstance(args[0], AMask):
-                m = args[0]
-                if m.inside in ("ALL", "NONE"):
-                    raise AnalysisError("where() on a constant mask")
-                return (ASet(m.inside, comp=m.neg),)
-        return NotImplemented
-
-    I.call_hook = hook
-    simu = XObj(repo.cls(SIMU), dict(mesh=SimpleNamespace(Nn=Opaque("Nn")), _verbosity=False))
-    simu.attrs["Get_dof_n"] = lambda pt=None: Opaque("dof_n")
-    simu.attrs["Bc_dofs_Dirichlet"] = lambda pt=None: ASet("D")
-
-    simu.attrs["mesh"] = SimpleNamespace(Nn=Num())
-    simu.attrs["Get_dof_n"] = lambda pt=None: Num()
-    try:
-        known, unknown = I.call_function(f, [Opaque("pt")], self_obj=simu)
-    except (AnalysisError, XRaise) as e:
-        r.fail(f.qualname, "shape", f.file, f.lineno, "Bc_dofs_known_unknown", f"cannot be read as mask / complement: {e}")
-        return
-    ok = isinstance(known, ASet) and isinstance(unknown, ASet) and known.name == unknown.name == "D" and not known.comp and unknown.comp
-    if ok:
-        r.ok("returns (where(~mask), where(mask)) of one mask that is False exactly on the Dirichlet dofs")
-    else:
-        r.fail(f.qualname, "partition", f.file, f.lineno, "Bc_dofs_known_unknown", "the returned pair is not (Dirichlet set, its complement) of a single mask, in that order")
+    cases = [("unsorted with a repetition", 4, 2, [5, 1, 5, 6]), ("first and last dof", 3, 1, [2, 0]), ("every dof", 2, 2, [3, 2, 1, 0, 1]), ("a single dof entered three times", 3, 2, [4, 4, 4])]
+    for label, Nn, dof_n, dofs in cases:
+        r.instance(fn=f.qualname)
+        I = Interp(repo, extra_builtins={"Tic": lambda *a, **k: Sink(), "MPI_SIZE": 1})
+        simu = XObj(repo.cls(SIMU), dict(mesh=SimpleNamespace(Nn=Nn), _verbosity=False))
+        simu.attrs["Get_dof_n"] = lambda pt=None, _d=dof_n: _d
+        simu.attrs["Bc_dofs_Dirichlet"] = lambda pt=None, _l=dofs: list(_l)
+        simu.attrs["_Simu__Get_Ndof"] = lambda pt=None, _n=Nn * dof_n: _n
+        try:
+            known, unknown = I.call_function(f, [Opaque("pt")], self_obj=simu)
+        except XRaise as e:
+            r.fail(f.qualname, f"raises:{label}", f.file, f.lineno, "Bc_dofs_known_unknown", f"Dirichlet dofs {dofs} ({label}): raises {e}")
+            continue
+        k = [int(x) for x in XArray.from_nested(known).data]
+        u = [int(x) for x in XArray.from_nested(unknown).data]
+        n = Nn * dof_n
+        if sorted(k) != sorted(set(dofs)):
+            r.fail(f.qualname, "known", f.file, f.lineno, "Bc_dofs_known_unknown", f"{n} dofs, Dirichlet dofs entered as {dofs} ({label}): the known dofs are {k}, expected each constrained dof once: {sorted(set(dofs))}")
+        elif sorted(u) != [d for d in range(n) if d not in dofs]:
+            r.fail(f.qualname, "partition", f.file, f.lineno, "Bc_dofs_known_unknown", f"{n} dofs, Dirichlet dofs {dofs} ({label}): the unknown dofs are {u}, expected the complement {[d for d in range(n) if d not in dofs]}: known and unknown dofs are not a partition")
+        else:
+            r.ok(f"{label}: known {sorted(k)}, unknown the complement")
 
 
 def duplicates_rule(ctx):
@@ -606,23 +597,8 @@ def dispatch_rule(ctx):
     mod = repo.module(SOLV)
     f = mod.functions["_Solve_Axb"]
     members = repo.enum_members(SOLV + ".SolverType")
-    handled = set()
-    for n in ast.walk(f.node):
-        if isinstance(n, ast.Compare) and isinstance(n.left, ast.Name) and isinstance(n.ops[0], ast.Eq):
-            c = n.comparators[0]
-            d = dotted(c) or ""
-            if d.startswith("SolverType."):
-                handled.add(d.split(".")[1])
-            elif isinstance(c, ast.Constant) and isinstance(c.value, str):
-                for k, v in members.items():
-                    if v == c.value:
-                        handled.add(k)
-    for m in members:
-        r.instance(fn=f.qualname)
-        if m in handled:
-            r.ok(f"SolverType.{m} has a branch")
-        else:
-            r.fail(f.qualname, f"member:{m}", f.file, f.lineno, "_Solve_Axb", f"SolverType.{m} falls through to NotImplementedError")
+    # (the member -> branch table used to be read off the `solver == SolverType.x` comparisons: that fired on a dict dispatch,
+    #  refactored/C04-R1; it is now decided by the interpretation below: a member without a branch raises NotImplementedError)
     # convergence indicators: _Solve_Axb interpreted for every Krylov backend with a stand-in that reports non-convergence
     # (info = 1) and convergence (info = 0): the non-converged iterate must not be returned as the solution
     from ..xeval import EnumVal
@@ -658,7 +634,7 @@ def dispatch_rule(ctx):
                     raise _Stop()
                 return NotImplemented
 
-            I = Interp(repo, extra_builtins={"MPI_SIZE": 1, "Tic": lambda *a, **k: Sink(), "CAN_USE_PYPARDISO": False, "CAN_USE_PETSC": True, "isinstance": lambda o, t: True})
+            I = Interp(repo, extra_builtins={"MPI_SIZE": 1, "Tic": lambda *a, **k: Sink(), "CAN_USE_PYPARDISO": True, "CAN_USE_PETSC": True, "isinstance": lambda o, t: True})
             I.call_hook = hook
             try:
                 I.call_function(f, [simu, Opaque("pt"), A, SimpleNamespace(toarray=lambda: SimpleNamespace(ravel=lambda: Opaque("b"))), Opaque("x0"), [1], [1]])
@@ -668,6 +644,11 @@ def dispatch_rule(ctx):
             except XRaise as e:
                 outcome[info] = f"raises {e.exc_name}"
             used = seen[0] if seen else used
+        r.instance(fn=f.qualname)
+        if outcome.get(0) == "raises NotImplementedError":
+            r.fail(f.qualname, f"member:{nm}", f.file, f.lineno, "_Solve_Axb", f"SolverType.{nm} falls through to NotImplementedError")
+        else:
+            r.ok(f"SolverType.{nm} is served ({outcome.get(0)})")
         if used is None:
             continue  # a direct backend: no convergence indicator
         r.instance(fn=f.qualname)
